@@ -305,6 +305,12 @@ impl Monitor for QuoteMon {
             return; // the v2 instruction is the one the SDKs build
         }
         let Some(pre) = obs.pre.data(&c.pool).and_then(codec::Pool::decode) else { return };
+        // the reward workload has episodes in which the clock runs BACKWARDS (to see the program refuse them); no chain
+        // state looks like that and the quote functions are not told the pool's reward timestamp: not a quote to judge
+        if (obs.pre.clock.unix_timestamp as u64) < pre.reward_last_updated_timestamp {
+            acc.count("quotes_skipped_clock_behind_the_pool");
+            return;
+        }
         // the quote functions take no price limit: judge the same swap with limit 0 and permissive threshold
         let mut ix = obs.ix.clone();
         ix.data[16..24].copy_from_slice(&(if c.exact_in { 0u64 } else { u64::MAX }).to_le_bytes());
@@ -433,6 +439,62 @@ impl Monitor for QuoteMon {
     }
 }
 
+/// Owed-amount quotes: `collect_fees_quote` / `collect_rewards_quote` built from the state before every successful
+/// `update_fees_and_rewards` of the histories must give exactly what the program then records as owed to the position
+/// (fees of both tokens, the three rewards), and must not fail there.
+#[derive(Default)]
+struct OwedQuoteMon;
+
+impl Monitor for OwedQuoteMon {
+    fn after(&mut self, w: &mut World, obs: &Obs, acc: &mut Acc) {
+        if obs.ix.name != "update_fees_and_rewards" || !obs.ok() {
+            return;
+        }
+        let (poolk, posk) = (obs.ix.key("whirlpool"), obs.ix.key("position"));
+        let (Some(pre), Some(pp), Some(np)) = (obs.pre.data(&poolk).and_then(codec::Pool::decode), obs.pre.data(&posk).and_then(codec::Position::decode), w.bank.data(&posk).and_then(codec::Position::decode)) else { return };
+        let tick_of = |t: i32| -> sdk::TickFacade {
+            let start = array_start(t, pre.tick_spacing);
+            let fac = tick_array_facade(&obs.pre, &poolk, start);
+            fac.ticks[((t - start) / pre.tick_spacing as i32) as usize]
+        };
+        let mut pf = pool_facade(&pre);
+        for i in 0..3 {
+            pf.reward_infos[i] = sdk::WhirlpoolRewardInfoFacade { emissions_per_second_x64: pre.reward_infos[i].emissions_per_second_x64, growth_global_x64: pre.reward_infos[i].growth_global_x64 };
+        }
+        let mut posf = sdk::PositionFacade { liquidity: pp.liquidity, tick_lower_index: pp.tick_lower_index, tick_upper_index: pp.tick_upper_index, fee_growth_checkpoint_a: pp.fee_growth_checkpoint_a, fee_owed_a: pp.fee_owed_a, fee_growth_checkpoint_b: pp.fee_growth_checkpoint_b, fee_owed_b: pp.fee_owed_b, ..Default::default() };
+        for i in 0..3 {
+            posf.reward_infos[i] = sdk::PositionRewardInfoFacade { growth_inside_checkpoint: pp.reward_infos[i].growth_inside_checkpoint, amount_owed: pp.reward_infos[i].amount_owed };
+        }
+        let (tl, tu) = (tick_of(pp.tick_lower_index), tick_of(pp.tick_upper_index));
+        let now = obs.pre.clock.unix_timestamp as u64;
+        let fail = |acc: &mut Acc, sig: &str, detail: String| {
+            acc.violation(format!("sdk:owed_quote:{sig}"), detail, json!({"instruction": ix_brief(&obs.ix), "tick": pre.tick_current_index, "range": [pp.tick_lower_index, pp.tick_upper_index], "clock": now}));
+        };
+        acc.count("owed_quotes_compared");
+        match quiet_catch(|| sdk::collect_fees_quote(pf, posf, tl, tu, None, None)).unwrap_or(Err("sdk panicked")) {
+            Ok(q) => {
+                if (q.fee_owed_a, q.fee_owed_b) != (np.fee_owed_a, np.fee_owed_b) {
+                    fail(acc, "fees", format!("program records fees owed ({}, {}); sdk collect_fees_quote gives ({}, {})", np.fee_owed_a, np.fee_owed_b, q.fee_owed_a, q.fee_owed_b));
+                }
+            }
+            Err(e) => fail(acc, "fees_quote_fails", format!("program updated the position; sdk collect_fees_quote error: {e}")),
+        }
+        match quiet_catch(|| sdk::collect_rewards_quote(pf, posf, tl, tu, now, None, None, None)).unwrap_or(Err("sdk panicked")) {
+            Ok(q) => {
+                let got = [q.rewards[0].rewards_owed, q.rewards[1].rewards_owed, q.rewards[2].rewards_owed];
+                let want = [np.reward_infos[0].amount_owed, np.reward_infos[1].amount_owed, np.reward_infos[2].amount_owed];
+                if got != want {
+                    fail(acc, "rewards", format!("program records rewards owed {want:?}; sdk collect_rewards_quote gives {got:?}"));
+                }
+                if pre.reward_infos.iter().any(|r| r.emissions_per_second_x64 > 0) && now > pre.reward_last_updated_timestamp && pre.liquidity > 0 {
+                    acc.count("owed_quotes_with_pending_emissions");
+                }
+            }
+            Err(e) => fail(acc, "rewards_quote_fails", format!("program updated the position; sdk collect_rewards_quote error: {e}")),
+        }
+    }
+}
+
 /// Liquidity quotes: `increase_liquidity_quote` / `decrease_liquidity_quote` for the liquidity amount of every
 /// successful increase / decrease of the histories must give exactly what the owner paid / received
 /// (transfer fees included), and never fail there.
@@ -546,13 +608,15 @@ fn main() {
     let acc2 = run_histories(
         seed ^ 0x20,
         per_shard,
-        move |_r| HistCfg { ops: 120, spl_only: false, allow_adaptive: true, allow_transfer_fee: true, w_swap: 60, w_liq: 24, w_fees: 2, w_lifecycle: 2, w_clock: 10, w_setters: 2, w_burst: 1, ..Default::default() },
-        || vec![Box::new(QuoteMon) as Box<dyn Monitor>, Box::new(LiqQuoteMon) as Box<dyn Monitor>],
+        move |_r| HistCfg { ops: 120, spl_only: false, allow_adaptive: true, allow_transfer_fee: true, w_swap: 60, w_liq: 24, w_fees: 10, w_lifecycle: 2, w_clock: 10, w_setters: 2, w_burst: 1, w_reward: 16, ..Default::default() },
+        || vec![Box::new(QuoteMon) as Box<dyn Monitor>, Box::new(LiqQuoteMon) as Box<dyn Monitor>, Box::new(OwedQuoteMon) as Box<dyn Monitor>],
     );
     acc.merge(acc2);
     rep.acc = acc;
     rep.floor("ticks_compared", 887_273);
     rep.floor("slippage_price_bounds_checked", 20_000);
+    rep.floor("owed_quotes_compared", 1_000);
+    rep.floor("owed_quotes_with_pending_emissions", 20);
     rep.floor("fee_reverse_both_ok", 50_000);
     rep.floor("fee_reverse_both_ok_above_2_63", 2_000);
     rep.floor("liquidity_quotes_compared", 2_000);
